@@ -56,6 +56,35 @@ def skeletons(rng, n, depth=3):
     return out
 
 
+FAILING = ["say Nope", "Boom taking 1", "Echo taking 1, 2", "Nofunc taking 1", "say mysterious is less than true",
+           "cut 5 into Zed", "join 5 into Zed", "join Str", "turn up \"x\"", "say 5 at 1", "let Five at 1 be 3", "roll 5", "build Str up",
+           "say Echo taking Nope", "put Boom taking 1 into Zed", "say 1 over 0", "cast \"x\" into Zed with 99", "cast Str with 99", "listen to Zed",
+           "say it", "rock Str with Boom taking 2", "let Str at Boom taking 3 be 1", "Echo taking Boom taking 4"]
+CONTEXTS = [
+    ("top", "{F}\n"),
+    ("if", "if true\n{F}\nsay \"same block\"\n\n"),
+    ("else", "if false\nsay 0\nelse\n{F}\nsay \"same block\"\n\n"),
+    ("loop", "put 0 into Ctr\nwhile Ctr is less than 3\nbuild Ctr up\nsay Ctr\n{F}\n\n"),
+    ("until+if", "put 0 into Ctr\nuntil Ctr is 3\nbuild Ctr up\nif Ctr is 2\n{F}\n\nsay Ctr\n\n"),
+    ("in a function called as a statement", "Wrap takes Yy\nsay \"wrap\"\n{F}\nsay \"wrap end\"\n\nWrap taking 1\n"),
+    ("in a function called in an expression", "Wrap takes Yy\n{F}\ngive back 1\n\nsay Wrap taking 1\n"),
+    ("in a function called as a statement in a loop in an if", "Wrap takes Yy\n{F}\n\nput 0 into Ctr\nif true\nwhile Ctr is less than 2\nbuild Ctr up\nWrap taking Ctr\nsay Ctr\n\n\n"),
+]
+
+
+def error_stops_cases():
+    """every statement form that can fail x every position it can stand in: the run must stop right there
+    (or go on, when the form does not fail) exactly as the model does, with the same output before it"""
+    pre = ("Boom takes Xx\nsay \"in\"\nsay Nope\nsay \"unreachable\"\n\nEcho takes Xx\ngive back Xx\n\n"
+           "put \"s\" into Str\nsay \"before\"\n")
+    out = []
+    for f in FAILING:
+        for cname, ctx in CONTEXTS:
+            out.append({"src": pre + ctx.replace("{F}", f) + "say \"after\"\n", "stdin": "", "rf": 0 if f.startswith("listen") else None,
+                        "meta": f"error-stops: `{f}` {cname}"})
+    return out
+
+
 def run(chk):
     proved = setup(chk, "C04")
     rng = rng_for(chk, 4)
@@ -65,6 +94,7 @@ def run(chk):
     # an error in the middle: everything printed before it is preserved, nothing after
     for cond in CONDS:
         cases.append({"src": f"put 1 into X\nrock Q with 1, 0\nsay 1\nif {cond}\nsay 2\nsay Y\nsay 3\n\nsay 4\nsay mysterious is less than true\nsay 5\n", "meta": "error-stops"})
+    cases += error_stops_cases()
     # a loop left by break after the body made the condition unevaluable
     cases.append({"src": "X is 0\nuntil X is greater than 10\nbuild X up\nsay X\nif X is 3\nput true into X\nbreak\n\n\nsay \"done\"\n", "meta": "break, condition unevaluable"})
     # loops with an EMPTY body: the condition (with a side effect) is still evaluated before every iteration
@@ -86,6 +116,8 @@ def run(chk):
     record_exec(chk, recs2)
     chk.rule = ("skeleton programs: arbitrarily nested if/else/while/until with break/continue (both spellings) inside nested ifs, "
                 "numbered say markers, conditions of every value kind incl. side-effecting `roll Q`; programs with a runtime error "
-                "in the middle (output before it must be preserved); plus generated programs. Compared: stdout bytes and outcome, "
+                "in the middle (output before it must be preserved): 23 failing statement forms (unknown names, failing/ill-called "
+                "functions as statements and inside expressions, value errors, read fault) x 8 positions (top level, if, else, loops, "
+                "function bodies called as statement / in an expression / from a loop in an if); plus generated programs. Compared: stdout bytes and outcome, "
                 "debug and release, model vs implementation. distinct = (output prefix, #ifs, #loops)")
     conclude(chk, "C04", proved)
